@@ -22,6 +22,7 @@ func c10(c *Ctx) {
 	p := c.P
 	c.captureFamily("litefs.(*DB).WriteSnapshotTo", false)
 	c.captureFamily("litefs.(*DB).Export", true)
+	c.walCacheFamily("wal-cache")
 
 	// snapshot self-check + header
 	c.snapshotSelfCheck("selfcheck")
